@@ -458,6 +458,31 @@ pub struct Runner {
     pub last_obs: Option<Obs>,
     /// the library currently holds a configuration (an init succeeded since the last restart)
     pub inited: bool,
+    /// directory entries outside the storage directory in use changed by the last call (repeated inits only)
+    pub outside_changes: usize,
+}
+
+/// Every entry (path, kind, size, content hash) under `root` except those under `skip` (the storage directory in use,
+/// which the observation covers field by field).
+fn tree_listing(root: &Path, skip: &Path) -> std::collections::BTreeSet<String> {
+    let mut out = std::collections::BTreeSet::new();
+    let mut stack = vec![root.to_path_buf()];
+    while let Some(d) = stack.pop() {
+        let rd = match std::fs::read_dir(&d) { Ok(r) => r, Err(_) => continue };
+        for e in rd.flatten() {
+            let p = e.path();
+            if p.starts_with(skip) { continue; }
+            let md = match std::fs::symlink_metadata(&p) { Ok(m) => m, Err(_) => continue };
+            if md.is_dir() {
+                out.insert(format!("d {}", p.display()));
+                stack.push(p);
+            } else {
+                let h = std::fs::read(&p).map(|b| sha256_hex(&b)).unwrap_or_default();
+                out.insert(format!("f {} {} {}", p.display(), md.len(), h));
+            }
+        }
+    }
+    out
 }
 
 fn cstr(s: &str) -> CString {
@@ -551,14 +576,14 @@ impl Runner {
         hooks::reset_config();
         install_lock_hooks();
         let dirs = Dirs::new();
-        Runner { dirs, pj_hist: vec![], sj_hist: vec![], pj_ok: vec![], sj_ok: vec![], last_obs: None, inited: false }
+        Runner { dirs, pj_hist: vec![], sj_hist: vec![], pj_ok: vec![], sj_ok: vec![], last_obs: None, inited: false, outside_changes: 0 }
     }
 
     /// A runner over a persistent directory (crash experiments).
     pub fn at(root: PathBuf) -> Runner {
         hooks::reset_config();
         install_lock_hooks();
-        Runner { dirs: Dirs::at(root), pj_hist: vec![], sj_hist: vec![], pj_ok: vec![], sj_ok: vec![], last_obs: None, inited: false }
+        Runner { dirs: Dirs::at(root), pj_hist: vec![], sj_hist: vec![], pj_ok: vec![], sj_ok: vec![], last_obs: None, inited: false, outside_changes: 0 }
     }
 
     pub fn storage(&self) -> PathBuf {
@@ -622,7 +647,13 @@ impl Runner {
                     _ => yaml.clone(),
                 };
                 let y = cstr(&yaml_text(&yaml_eff));
+                // C14: a repeated init must change nothing on disk, the directories IT was given included
+                let before = if self.inited { Some(tree_listing(&self.dirs.root, &self.storage())) } else { None };
                 let ok = capi::shorebird_init(&params, cbs, y.as_ptr());
+                if let Some(b) = before {
+                    let after = tree_listing(&self.dirs.root, &self.storage());
+                    self.outside_changes = b.symmetric_difference(&after).count();
+                }
                 // `true` also when this init failed after configuring (FailedToCleanUpFailedPatch)
                 act_log_pause();
                 if http {
@@ -871,6 +902,22 @@ impl Runner {
                     std::fs::write(st.join("state.json"), out).unwrap();
                 }
             }
+            Damage::SjMerge(k) => {
+                // current file (must be well-formed) + the queued events of version k appended
+                let cur = std::fs::read(st.join("state.json")).ok().and_then(|b| serde_json::from_slice::<serde_json::Value>(&b).ok());
+                let old = self.sj_hist.get(*k).and_then(|o| o.as_ref()).and_then(|b| serde_json::from_slice::<serde_json::Value>(b).ok());
+                if let (Some(mut cur), Some(old)) = (cur, old) {
+                    let extra: Vec<serde_json::Value> = old.get("queued_events").and_then(|v| v.as_array()).cloned().unwrap_or_default();
+                    if let Some(q) = cur.get_mut("queued_events").and_then(|v| v.as_array_mut()) {
+                        // (current ++ old) twice: long enough to exceed the batch of three, and not periodic in a way
+                        // that would make "the first three" and "the last three" coincide
+                        q.extend(extra);
+                        let once = q.clone();
+                        q.extend(once);
+                        std::fs::write(st.join("state.json"), serde_json::to_vec(&cur).unwrap()).unwrap();
+                    }
+                }
+            }
             Damage::Nop => {}
         }
     }
@@ -887,7 +934,7 @@ impl Runner {
         self.pj_ok.push(matches!(pj, JFile::Ok(_)));
         self.sj_ok.push(matches!(sj, JFile::Ok(_)));
         let (la, lb) = { let l = ACT_LOG.lock().unwrap(); (l.main.clone(), l.bg_net) };
-        let obs = Obs { ret, net, sj, pj, pd, la, lb };
+        let obs = Obs { ret, net, sj, pj, pd, la, lb, outside: std::mem::take(&mut self.outside_changes) };
         self.last_obs = Some(obs.clone());
         obs
     }
